@@ -467,6 +467,9 @@ func statelessIface(t types.Type) bool {
 func (r *Resolver) load(u *ssa.UnOp, d int) *Term {
 	switch a := u.X.(type) {
 	case *ssa.Alloc:
+		if v := sameBlockStore(u, a); v != nil {
+			return r.of(v, d+1)
+		}
 		return r.allocContent(a, -1, d)
 	case *ssa.FieldAddr:
 		path := []int{a.Field}
@@ -687,4 +690,50 @@ func fieldPathName(T types.Type, path []int) string {
 		}
 	}
 	return strings.Join(parts, ".")
+}
+
+// sameBlockStore: the value most recently stored to the local in the same
+// basic block before the load, provided no call in between can write it
+// (the local escapes to closures or callees only through its address).
+func sameBlockStore(u *ssa.UnOp, a *ssa.Alloc) ssa.Value {
+	b := u.Block()
+	if b == nil {
+		return nil
+	}
+	idx := -1
+	for i, ins := range b.Instrs {
+		if ins == u {
+			idx = i
+			break
+		}
+	}
+	escapes := false
+	for _, ref := range *a.Referrers() {
+		switch x := ref.(type) {
+		case *ssa.Store:
+			if x.Addr != a {
+				escapes = true // address stored somewhere
+			}
+		case *ssa.UnOp, *ssa.DebugRef:
+		case *ssa.FieldAddr, *ssa.IndexAddr:
+		default:
+			escapes = true // passed to a call, captured by a closure, ...
+		}
+	}
+	for i := idx - 1; i >= 0; i-- {
+		switch x := b.Instrs[i].(type) {
+		case *ssa.Store:
+			if x.Addr == a {
+				return x.Val
+			}
+			if fa, ok := x.Addr.(*ssa.FieldAddr); ok && fa.X == a {
+				return nil
+			}
+		case ssa.CallInstruction:
+			if escapes {
+				return nil
+			}
+		}
+	}
+	return nil
 }
